@@ -75,15 +75,18 @@ func areaShadow(r *Rng, n int, dir string) (*AreaOut, error) {
 				}
 			}
 		} else {
+			emptyMain := r.Chance(12) // the application deleted everything: the capture must mark every live shadow entry
 			for _, k := range pool {
-				if r.Chance(40) {
+				if r.Chance(40) && !emptyMain {
 					mainPairs = append(mainPairs, pair{k, pick(r, appVals)})
 				}
 				if r.Chance(45) {
 					var v []byte
 					switch r.Intn(12) {
-					case 0, 1, 2:
+					case 0, 1:
 						v = mkStored(genTSs(), 7, 1, 0, nil) // deleted marker
+					case 2:
+						v = mkStored(genTSs(), 7, 1, 1, nil) // deleted marker with a padding block (as LoadOnce writes it with header_extra_padding_block)
 					case 3:
 						v = mkStored(genTSs(), 7, 0, 1, pick(r, appVals)) // padding block
 					case 4:
@@ -117,13 +120,14 @@ func areaShadow(r *Rng, n int, dir string) (*AreaOut, error) {
 			if dup {
 				// a realistic shadow: capture a slightly different application state first
 				_ = sy.VerifMainToShadow(ctx, txn, header.Timestamp(now/2)) // a refusal here just leaves the shadow as it is
-				// then change the application DBI
+				// then change the application DBI (sometimes: delete every pair)
+				delAll := r.Chance(12)
 				for _, p := range mainPairs {
-					if r.Chance(25) {
+					if r.Chance(25) || delAll {
 						_ = txn.Del(mainDBI, p.K, p.V)
 					}
 				}
-				if r.Chance(50) {
+				if r.Chance(50) && !delAll {
 					_ = txn.Put(mainDBI, pick(r, pool[:10]), []byte("new"), 0)
 				}
 				// replace a long value by another one sharing the prefix that fits into the shadow key
@@ -220,7 +224,14 @@ func contains(s, sub string) bool { return bytes.Contains([]byte(s), []byte(sub)
 // mirrorOracle: clauses of C11 (and the cycle clause of C20) evaluated directly.
 func mirrorOracle(op string, now, txn uint64, main, shadow, result []pair) []OracleFailure {
 	var fs []OracleFailure
-	add := func(prop, clause, desc string) { fs = append(fs, OracleFailure{Property: prop, Clause: clause, Desc: desc}) }
+	add := func(prop, clause, desc string) {
+		fs = append(fs, OracleFailure{Property: prop, Clause: clause, Desc: desc})
+		if clause == "capture-untouched" {
+			// the same fact is C10's: a capture that finds an entry unchanged rewrites nothing (no write amplification,
+			// no fresh timestamps for idle snapshots to spread)
+			fs = append(fs, OracleFailure{Property: "C10", Clause: "capture-rewrites-unchanged", Desc: desc})
+		}
+	}
 	switch op {
 	case "capture":
 		mainM := map[string][]byte{}
